@@ -27,6 +27,28 @@ def run(ctx):
     args = [["--levels", levels, "--tier", tier, "--targets", "avx,sse,mmx", "--classes", "int",
              "--corpus", corpus_arg(), "--shard", i, "--nshards", nsh, "--deadline", int(deadline)] for i in range(nsh)]
     res = vlib.run_shards(exe, args, env, timeout=deadline * 1.5 + 300, label="xprog")
+    # the other flag sets of each target: every 64-bit feature subset (code identical to an already compared vector is skipped),
+    # reduced input sweep.  The same leg is C11's second oracle; the statement of C01 quantifies over flag sets as well.
+    args2 = [["--levels", "L1,L4,L5,L6" if tier == "quick" else "L1,L2,L4,L5,L6", "--tier", tier, "--targets", "sse,avx,mmx", "--classes", "int",
+              "--corpus", corpus_arg(), "--prop", "C01", "--featsets", 1, "--lite", 1, "--shard", i, "--nshards", nsh,
+              "--deadline", int(deadline)] for i in range(nsh)]
+    res2 = vlib.run_shards(exe, args2, env, timeout=deadline * 1.5 + 300, label="xprog-featsets")
+    # collapse over flag vectors: one key per (target, program shape), the smallest failing set kept
+    best = {}
+    for v in res2.viol:
+        parts = v["key"].split("|")
+        if len(parts) > 2 and "/0x" in parts[1]:
+            t, fl = parts[1].split("/0x")
+            k = "|".join([parts[0], t + "-flags"] + parts[2:])
+            n = bin(int(fl, 16)).count("1")
+            if k not in best or n < best[k][0]:
+                v = dict(v)
+                v["key"] = k
+                v["what"] = "under flag vector 0x%s: %s" % (fl, v["what"])
+                best[k] = (n, v)
+        else:
+            best[v["key"]] = (0, v)
+    viol2 = [b[1] for b in best.values()]
     import shutil
     shutil.rmtree(scratch, ignore_errors=True)
     st = res.stats
@@ -47,7 +69,11 @@ def run(ctx):
         "compiled_program_target_pairs": int(st.get("compiled", 0)),
         "not_compiled_pairs": int(st.get("nocompile", 0)),
         "elements_compared": int(st.get("elements", 0)),
-        "exhaustive": not res.incomplete,
+        "feature_subset_leg": {"runs": int(res2.stats.get("runs", 0)), "compiled_program_vector_pairs": int(res2.stats.get("compiled", 0)),
+                               "identical_code_skipped": int(res2.stats.get("same_code_skipped", 0)),
+                               "rule": "levels L1,L4,L5,L6 (thorough: +L2) x every subset of each target's feature bits in 64-bit mode; vectors whose "
+                                       "machine code is byte-identical to one already run are skipped; reduced sweep (n, 3 lead offsets, value tables)"},
+        "exhaustive": not (res.incomplete or res2.incomplete),
         "notes": res.notes[:10],
     }
     assumptions = [
@@ -56,7 +82,7 @@ def run(ctx):
         "shift counts, loadoff offsets and resampling parameters are kept inside the documented ranges",
         "host CPU executes AVX2/SSE4.2/MMX natively",
     ]
-    return "exploration", cov, assumptions, res.viol
+    return "exploration", cov, assumptions, res.viol + viol2
 
 
 def replay(rep):
